@@ -79,7 +79,7 @@ func corruptBytes(data []byte, kind int, seed uint64) ([]byte, string) {
 	return out, where
 }
 
-var structNames = []string{"swap-keys", "dup-key", "card+1", "card-1", "card-zero", "array-as-bitmap-card", "array-unsorted", "array-dup", "run-overlap", "run-adjacent", "run-wrap", "run-none", "nrun-too-big", "bad-cookie", "size-huge", "size-off", "offsets-garbage", "runflag-on-array", "bitmap-card-mismatch", "bitmap-small-card", "run-unsorted", "run-cookie-no-runs", "run-as-array-rekind", "key-desc"}
+var structNames = []string{"run-to-end", "run-to-end", "swap-keys", "dup-key", "card+1", "card-1", "card-zero", "array-as-bitmap-card", "array-unsorted", "array-dup", "run-overlap", "run-adjacent", "run-wrap", "run-none", "nrun-too-big", "bad-cookie", "size-huge", "size-off", "offsets-garbage", "runflag-on-array", "bitmap-card-mismatch", "bitmap-small-card", "run-unsorted", "run-cookie-no-runs", "run-as-array-rekind", "key-desc"}
 
 // structuredCorrupt parses a valid portable stream with the independent codec,
 // breaks one field, and re-encodes. Returns nil if not applicable.
@@ -168,6 +168,14 @@ func structuredCorrupt(data []byte, seed uint64) ([]byte, string) {
 				default:
 					rs[j], rs[j+1] = rs[j+1], rs[j]
 				}
+				ok = true
+			}
+		case "run-to-end":
+			// the length field of a non-final run maxed out to the end of the chunk
+			if i := pick(2); i >= 0 && len(s.Chunks[i].Runs) >= 2 {
+				rs := s.Chunks[i].Runs
+				j := r.Intn(len(rs) - 1)
+				rs[j][1] = uint16(65535 - int(rs[j][0]))
 				ok = true
 			}
 		case "run-wrap":
